@@ -93,13 +93,37 @@ def field_source(fdef):
         kw.append('db_table=%r' % fdef['db_table'])
     if kind == 'ManyToMany' and fdef.get('subclass'):
         return 'SubM2M(%s)' % ', '.join(kw)
+    if kind in S.CUSTOM_KINDS:
+        return '%s(%s)' % (kind, ', '.join(kw))
     return 'models.%s(%s)' % (cls, ', '.join(kw))
 
 
-def models_source(app, mods):
+FIELDS_PY = '''from django.db import models
+
+
+class TagField(models.CharField):
+    pass
+
+
+class CodeField(models.CharField):
+    pass
+
+
+class NoteField(models.CharField):
+    pass
+'''
+OWN_FIELDS_IMPORT = 'from %s.fields import TagField, CodeField, NoteField'
+
+
+def models_source(app, mods, pkg=None):
     lines = ['from django.db import models',
              'from django.db.models.functions import Lower',
-             'from vcheck.customfields import SubM2M', '', '']
+             'from vcheck.customfields import SubM2M']
+    if any(fd['kind'] in S.CUSTOM_KINDS for ms in mods.values()
+           for _fn, fd in ms['fields']):
+        # custom field classes of the app's own package (<pkg>/fields.py)
+        lines.append(OWN_FIELDS_IMPORT % (pkg or app))
+    lines += ['', '']
     if not mods:
         lines.append('# no models at this version')
     for mname, ms in mods.items():
@@ -189,9 +213,11 @@ class Project(object):
                         '    name = %r\n    label = %r\n' % (pkg, app))
         with open(os.path.join(d, 'models.py'), 'w') as f:
             f.write(MODELS_PY % {'app': pkg or app, 'APP': app.upper()})
+        with open(os.path.join(d, 'fields.py'), 'w') as f:
+            f.write(FIELDS_PY)
         for i, mods in enumerate(version_models):
             with open(os.path.join(d, 'models_v%d.py' % i), 'w') as f:
-                f.write(models_source(app, mods))
+                f.write(models_source(app, mods, pkg=pkg or app))
         labels = [e[0] for e in evolutions]
         if nv is None:
             nv = list(range(len(version_models)))
@@ -201,7 +227,11 @@ class Project(object):
                                        'extra': init_extra})
         for label, texts, deps in evolutions:
             with open(os.path.join(d, 'evolutions', label + '.py'), 'w') as f:
-                f.write(evolution_source(texts, deps))
+                f.write(evolution_source(
+                    texts, deps,
+                    helpers=OWN_FIELDS_IMPORT % (pkg or app)
+                    if any(k in t for t in texts for k in S.CUSTOM_KINDS)
+                    else ''))
         if (pkg or app) not in self.apps:
             self.apps.append(pkg or app)
 
